@@ -12,7 +12,7 @@
    (NaN operands of < <= == unspecified); (2) the theorems of Order.tla on the observed matrices
    themselves: eq reflexive (except through NaN), symmetric, transitive; eq => compare 0; compare
    antisymmetric and transitive; compare &total total, antisymmetric, transitive, agreeing with compare,
-   grouping by type.  Rejections are printed as <<"BAD", k, {<<what, i, j>>, ...}>>. *)
+   grouping by type.  Rejections are printed as <<"BAD", k, what, i, j>>, one line each. *)
 EXTENDS Values, Order, TLC, Json
 Cases == ndJsonDeserialize("cases.ndjson")
 VARIABLE k
@@ -55,5 +55,6 @@ Failures(c, checkTypeOrder) ==
  \cup law("tot-grouped", TotGrouped(I, I, tot, LAMBDA i : v(i).t))
 
 \* the type table is the same in every case of a session: judged once per file
-Inv == k = 0 \/ LET f == Failures(Cases[k], k = 1) IN f = {} \/ PrintT(<<"BAD", k, f>>)
+\* one short line per failure: TLC wraps long values over several lines, which the harness cannot read back
+Inv == k = 0 \/ LET f == Failures(Cases[k], k = 1) IN \A e \in f : PrintT(<<"BAD", k, e[1], e[2], e[3]>>)
 =============================================================================
